@@ -40,6 +40,7 @@ def owners : List Owner := [
   ⟨N.«headerfs.NewBlockHeaderStore», .init⟩,
   ⟨N.«headerfs.NewFilterHeaderStore», .init⟩,
   ⟨N.«headerfs.headerStore.trimPartialHeader», .init⟩,
+  ⟨N.«headerfs.headerStore.resetInterruptedInit», .init⟩,   -- only called by the two constructors
   ⟨N.«headerfs.filterHeaderStore.maybeResetHeaderState», .init⟩]
 
 def callerHolds : List CallerHolds := [
